@@ -22,18 +22,24 @@ Record event := mkEvent { ev_what : what; ev_time : N }.
 
 Record rcfg := mkRcfg { preamble_max_errors : N; fc : fcfg; input_rate : N }.
 
-Record rx := mkRx {
+(** everything except the event queue *)
+Record core := mkCore {
   r_sq : sq;
   r_fr : fstate;
   r_asm : asm;
   r_link : link;
   r_transport : transport;
-  r_queue : list event;        (* front first *)
   r_samples : N;               (* input_sample_counter *)
   r_force_eom : option N       (* force_eom_at_sample *)
 }.
 
-Definition rx_init : rx := mkRx sq_init FIdle asm_init LNoCarrier TIdle [] 0 None.
+Record rx := mkRx {
+  r_core : core;
+  r_queue : list event         (* front first *)
+}.
+
+Definition core_init : core := mkCore sq_init FIdle asm_init LNoCarrier TIdle 0 None.
+Definition rx_init : rx := mkRx core_init [].
 
 (** [process_linklayer_symbol]: returns (link state, squelch, framer, used the equalizer byte) *)
 Definition linklayer_symbol (c : rcfg) (s : sq) (f : fstate) (t : tick)
@@ -78,35 +84,37 @@ Definition transportlayer (c : rcfg) (a : asm) (l : link) (symcount samples : N)
     end in
   (ot, a', force').
 
-(** one input sample through [process]'s loop body (without the early return) *)
-Definition step_item (c : rcfg) (s : rx) (i : item) : rx :=
-  let n := r_samples s + 1 in
+(** one input sample through the body of [process]'s loop: new state and the events it queues *)
+Definition step_core (c : rcfg) (k : core) (i : item) : core * list event :=
+  let n := r_samples k + 1 in
   match i with
-  | NoTick => mkRx (r_sq s) (r_fr s) (r_asm s) (r_link s) (r_transport s) (r_queue s) n (r_force_eom s)
+  | NoTick => (mkCore (r_sq k) (r_fr k) (r_asm k) (r_link k) (r_transport k) n (r_force_eom k), [])
   | Tick t =>
-    let '(l, sq', fr', _) := linklayer_symbol c (r_sq s) (r_fr s) t in
-    let link_changed := negb (link_eqb l (r_link s)) in
-    let q1 := if link_changed then r_queue s ++ [mkEvent (WLink l) n] else r_queue s in
-    let link' := if link_changed then l else r_link s in
-    let '(ot, asm', force') := transportlayer c (r_asm s) l (sq_symcount sq') n (r_force_eom s) in
+    let '(l, sq', fr', _) := linklayer_symbol c (r_sq k) (r_fr k) t in
+    let link_changed := negb (link_eqb l (r_link k)) in
+    let e1 := if link_changed then [mkEvent (WLink l) n] else [] in
+    let link' := if link_changed then l else r_link k in
+    let '(ot, asm', force') := transportlayer c (r_asm k) l (sq_symcount sq') n (r_force_eom k) in
     match ot with
     | Some t' =>
-      if transport_eqb t' (r_transport s)
-      then mkRx sq' fr' asm' link' (r_transport s) q1 n force'
-      else mkRx sq' fr' asm' link' t' (q1 ++ [mkEvent (WTransport t') n]) n force'
-    | None => mkRx sq' fr' asm' link' (r_transport s) q1 n force'
+      if transport_eqb t' (r_transport k)
+      then (mkCore sq' fr' asm' link' (r_transport k) n force', e1)
+      else (mkCore sq' fr' asm' link' t' n force', e1 ++ [mkEvent (WTransport t') n])
+    | None => (mkCore sq' fr' asm' link' (r_transport k) n force', e1)
     end
   end.
 
+Definition step_item (c : rcfg) (s : rx) (i : item) : rx :=
+  let '(k', evs) := step_core c (r_core s) i in mkRx k' (r_queue s ++ evs).
+
 (** did the model consume the equalizer byte of this tick? (trace consistency) *)
 Definition uses_eq (c : rcfg) (s : rx) (t : tick) : bool :=
-  snd (linklayer_symbol c (r_sq s) (r_fr s) t).
+  snd (linklayer_symbol c (r_sq (r_core s)) (r_fr (r_core s)) t).
 
 Definition pop_event (s : rx) : option (event * rx) :=
   match r_queue s with
   | [] => None
-  | e :: q => Some (e, mkRx (r_sq s) (r_fr s) (r_asm s) (r_link s) (r_transport s) q
-                             (r_samples s) (r_force_eom s))
+  | e :: q => Some (e, mkRx (r_core s) q)
   end.
 
 (** [SameReceiver::process] = one call of [Iterator::next]: returns the event (if any),
@@ -132,20 +140,19 @@ Definition process (c : rcfg) (s : rx) (src : list item) : option event * rx * l
   | None => process_loop c s src
   end.
 
-(** reference semantics: run everything, collect every event in order *)
-Fixpoint run_all (c : rcfg) (s : rx) (src : list item) : list event * rx :=
+(** reference semantics: every event of a single pass, in order *)
+Fixpoint run_core (c : rcfg) (k : core) (src : list item) : list event * core :=
   match src with
-  | [] => (r_queue s, mkRx (r_sq s) (r_fr s) (r_asm s) (r_link s) (r_transport s) [] (r_samples s) (r_force_eom s))
+  | [] => ([], k)
   | i :: rest =>
-    let s' := step_item c s i in
-    let q := r_queue s' in
-    let s'' := mkRx (r_sq s') (r_fr s') (r_asm s') (r_link s') (r_transport s') [] (r_samples s') (r_force_eom s') in
-    let '(evs, sf) := run_all c s'' rest in
-    (q ++ evs, sf)
+    let '(k', evs) := step_core c k i in
+    let '(evs', kf) := run_core c k' rest in
+    (evs ++ evs', kf)
   end.
 
 (** [n] samples without a tick *)
-Definition skip (s : rx) (n : N) : rx :=
-  mkRx (r_sq s) (r_fr s) (r_asm s) (r_link s) (r_transport s) (r_queue s) (r_samples s + n) (r_force_eom s).
+Definition skip_core (k : core) (n : N) : core :=
+  mkCore (r_sq k) (r_fr k) (r_asm k) (r_link k) (r_transport k) (r_samples k + n) (r_force_eom k).
+Definition skip (s : rx) (n : N) : rx := mkRx (skip_core (r_core s) n) (r_queue s).
 
 Definition rx_reset (s : rx) : rx := rx_init.
